@@ -239,9 +239,16 @@ class LexInterp:
             m = self.cls.find_method(f.attr)
             if m is None:
                 raise Unsupported("self.%s()" % f.attr)
-            if e.args or e.keywords:
-                raise Unsupported("lexer helper called with arguments: %s" % ast.unparse(e))
-            return self.invoke(m, st)
+            if e.keywords or any(isinstance(a, ast.Starred) for a in e.args):
+                raise Unsupported("lexer helper called with keyword/star arguments: %s" % ast.unparse(e))
+            # positional arguments: evaluated left to right (they may read characters), bound to the parameters
+            cur = [(st, [])]
+            for a in e.args:
+                cur = [(s2, vals + [v]) for s1, vals in cur for s2, v in self.ev(a, s1)]
+            res = []
+            for s1, vals in cur:
+                res.extend(self.invoke(m, s1, vals))
+            return res
         # str predicate on a character
         if isinstance(f, ast.Attribute) and f.attr in self.A.preds and not e.args:
             res = []
@@ -288,7 +295,7 @@ class LexInterp:
         name = f.id if isinstance(f, ast.Name) else (f.attr if isinstance(f, ast.Attribute) else None)
         return [(s, ("token", name) if name and name[:1].isupper() else ("opaque",)) for s in cur]
 
-    def invoke(self, m, st):
+    def invoke(self, m, st, argvals=()):
         if len(self.stack) > 12:
             raise Unsupported("inline depth")
         s = st.clone()
@@ -296,6 +303,8 @@ class LexInterp:
         s.env = {}
         a = m.node.args
         params = [x.arg for x in a.args[1:]]
+        if len(argvals) > len(params):
+            raise Unsupported("too many arguments for %s" % m.name)
         for p, d in zip(params[len(params) - len(a.defaults):], a.defaults):
             if isinstance(d, ast.Name) and d.id in self.consts:
                 s.env[p] = ("const", self.consts[d.id])
@@ -303,6 +312,8 @@ class LexInterp:
                 s.env[p] = ("const", d.value)
             else:
                 raise Unsupported("default argument %s" % ast.unparse(d))
+        for p, v in zip(params, argvals):
+            s.env[p] = v
         # local alias of the cursor written back at the end?
         alias = None
         for n in ast.walk(m.node):
@@ -466,7 +477,11 @@ class LexInterp:
             return res
         if l[0] == "const" and r[0] == "const":
             v = {ast.Eq: lambda a, b: a == b, ast.NotEq: lambda a, b: a != b, ast.Is: lambda a, b: a is b, ast.IsNot: lambda a, b: a is not b,
-                 ast.In: lambda a, b: a in b, ast.NotIn: lambda a, b: a not in b}.get(type(op))
+                 ast.In: lambda a, b: a in b, ast.NotIn: lambda a, b: a not in b,
+                 ast.Gt: lambda a, b: a > b, ast.GtE: lambda a, b: a >= b, ast.Lt: lambda a, b: a < b, ast.LtE: lambda a, b: a <= b}.get(type(op))
+            if v is not None and isinstance(op, (ast.Gt, ast.GtE, ast.Lt, ast.LtE)) and not (
+                    isinstance(l[1], (int, float)) and isinstance(r[1], (int, float)) and not isinstance(l[1], bool)):
+                v = None
             if v is None:
                 raise Unsupported("constant comparison %s" % type(op).__name__)
             return [(s, v(l[1], r[1]))]
@@ -551,6 +566,14 @@ class LexInterp:
             if isinstance(n.target, ast.Name) and n.target.id in st.env and st.env[n.target.id][0] == "pos" and isinstance(n.value, ast.Constant):
                 s = st.clone()
                 s.env[n.target.id] = ("pos", st.env[n.target.id][1] + (n.value.value if isinstance(n.op, ast.Add) else -n.value.value))
+                return [(s, "next", None)]
+            if isinstance(n.target, ast.Name) and n.target.id in st.env and st.env[n.target.id][0] == "const" \
+                    and isinstance(st.env[n.target.id][1], int) and not isinstance(st.env[n.target.id][1], bool) \
+                    and isinstance(n.value, ast.Constant) and isinstance(n.value.value, int) and isinstance(n.op, (ast.Add, ast.Sub)):
+                # a plain counter (`remaining -= 1`)
+                s = st.clone()
+                cur = st.env[n.target.id][1]
+                s.env[n.target.id] = ("const", cur + n.value.value if isinstance(n.op, ast.Add) else cur - n.value.value)
                 return [(s, "next", None)]
             raise Unsupported("augmented assignment `%s`" % ast.unparse(n))
         if isinstance(n, ast.Return):
@@ -658,9 +681,42 @@ class LexInterp:
     def seq(self, s):
         return rx.cat(*s.out)
 
+    def _counter_loop(self, n, st):
+        """`while <counter test>:` where the test only mentions integer constants held in locals: unrolled exactly
+        (the counted `for _ in range(k)` written as a while loop)."""
+        names = [x.id for x in ast.walk(n.test) if isinstance(x, ast.Name)]
+        if not names or not isinstance(n.test, ast.Compare) or any(isinstance(x, (ast.Call, ast.Attribute, ast.Subscript)) for x in ast.walk(n.test)):
+            return None
+        for nm in names:
+            v = st.env.get(nm)
+            if not (v and v[0] == "const" and isinstance(v[1], int) and not isinstance(v[1], bool)):
+                return None
+        cur, done = [st], []
+        for _ in range(66):
+            nxt = []
+            for s in cur:
+                for s1, t in self.cond(n.test, s):
+                    if not t:
+                        done.append((s1, "next", None))
+                        continue
+                    for s2, status, val in self.block(n.body, s1):
+                        if status in ("next", "continue"):
+                            nxt.append(s2)
+                        elif status == "break":
+                            done.append((s2, "next", None))
+                        else:
+                            done.append((s2, status, val))
+            cur = nxt
+            if not cur:
+                return done
+        raise Unsupported("counter loop at line %s does not terminate within 64 iterations" % n.lineno)
+
     def loop(self, n, st):
         if n.orelse:
             raise Unsupported("while/else")
+        unrolled = self._counter_loop(n, st)
+        if unrolled is not None:
+            return unrolled
         heads, index, work = [], {}, []
 
         def register(hs):
